@@ -283,6 +283,8 @@ class CodecTarget(Target):
         # determinism of the written bytes
         if self.deterministic:
             for kind, what in I.codec.order_events:
+                if kind == "dict-order" and self.deterministic != "strict":
+                    continue  # dicts iterate in insertion order: a function of how the value was built
                 ctx.oblige(f"codec/deterministic-bytes/{kind}", z3.BoolVal(False), kind="codec", where=f"writer iterates {what} in container order")
         if self.read_skips_tag:
             if not toks or toks[0][0] != "tag":
